@@ -5,12 +5,17 @@ set -e
 cd "$(dirname "$0")"
 V=.venv
 if [ -x "$V/bin/python" ] && "$V/bin/python" -c "import z3, cvc5, jsonschema, einx, numpy, sympy" 2>/dev/null; then
-  echo "setup: $V already usable"; exit 0
+  echo "setup: $V already usable"
+else
+  rm -rf "$V"
+  /venv/bin/python -m venv "$V"
+  PIP_NO_INDEX=1 "$V/bin/python" -m pip install --quiet --no-index --find-links /opt/veriftools/wheels \
+      z3-solver cvc5 crosshair-tool deal icontract jsonschema
+  SP=$("$V/bin/python" -c "import sysconfig; print(sysconfig.get_paths()['purelib'])")
+  echo "import site; site.addsitedir('/venv/lib/python3.12/site-packages')" > "$SP/zz_repo_venv.pth"
+  "$V/bin/python" -c "import z3, cvc5, jsonschema, einx, numpy, sympy; print('setup: ok', z3.get_version_string(), einx.__file__)"
 fi
-rm -rf "$V"
-/venv/bin/python -m venv "$V"
-PIP_NO_INDEX=1 "$V/bin/python" -m pip install --quiet --no-index --find-links /opt/veriftools/wheels \
-    z3-solver cvc5 crosshair-tool deal icontract jsonschema
-SP=$("$V/bin/python" -c "import sysconfig; print(sysconfig.get_paths()['purelib'])")
-echo "import site; site.addsitedir('/venv/lib/python3.12/site-packages')" > "$SP/zz_repo_venv.pth"
-"$V/bin/python" -c "import z3, cvc5, jsonschema, einx, numpy, sympy; print('setup: ok', z3.get_version_string(), einx.__file__)"
+# ghost lemmas (pure mathematics on lists/integers) used by some kernels: checked by Lean 4 + Mathlib; the stamp is keyed on the hash of
+# lemmas/Lemmas.lean and of the toolchain version, so a check re-runs lean by itself whenever the file changed (a failure here is not fatal
+# for the setup: the checks that use a lemma then run lean themselves and report a checker error if it is not accepted)
+PYTHONDONTWRITEBYTECODE=1 "$V/bin/python" -c "from vf import lemmas; r = lemmas.ensure_checked(); print('setup: lemmas accepted by lean:', r['ok'], r['seconds'], 's')" || true
